@@ -306,3 +306,6 @@ def run_case(cfg):
       "sample": {"cfg": cfg, "alphabet_size": int(x.size), "format": {k: f[k] for k in ("step", "lo", "hi")},
                  "first_outputs": y[:6].tolist(), "distinct_outputs": int(len(distinct))},
   }
+
+# (appended: sub-lattices added after the seeded waves; kept out of the original RULE text for readability)
+RULE = RULE + '; plus: the same formats under stochastic rounding with an owned random source answering each of 6 constant draws; constant per-channel scales (two alpha vectors); quantized_relu with is_quantized_clip / relu_upper_bound; quantized_linear whose `symmetric` attribute was re-assigned before / after a first call'
